@@ -58,7 +58,7 @@ CHECKS.update({
             "Real server context (fast / slow / failing / No-Response-suppressed / slow-failing handlers, CON and NON) fed with copies of "
             "four request keys that share IPs and message IDs, timer firings, jumps to EXCHANGE_LIFETIME -/+ 1 ms and ACKs of the "
             "separate response, for three seeds of the server's own MID counter that force collisions with request MIDs; all event "
-            "sequences to depth 3-4 (quick) / 5-6 (thorough: 6 away from the message-ID wrap, 5 around it; 4-5 for non-confirmable requests) with dedup on dedup table + piggyback table + timers + counters + model. "
+            "sequences to depth 3-4 (quick) / 5-6 (thorough: 6 away from the message-ID wrap - one job per first event, no visited set shared between them - 5 around it; 4-5 for non-confirmable requests) with dedup on dedup table + piggyback table + timers + counters + model. "
             "Per copy: handler executions, byte-identical repetition of the first ACK (or silence), independence of endpoints, re-processing after expiry.",
             TB + "EXCHANGE_LIFETIME (247 s) is computed from RFC defaults in the model, not read from the library.",
             "DESIGN.md 6/C04"),
